@@ -92,6 +92,8 @@ class Ctx:
         e["VERIF_SEED"] = str(self.seed)
         e["VERIF_TIER"] = self.tier
         e["VERIF_REPO"] = REPO
+        if self._wtf:
+            e["VERIF_WTF"] = self._wtf
         if env:
             e.update(env)
         exe = self.vh_race() if race else self.vh()
@@ -326,7 +328,8 @@ def finish(ctx, level, coverage, assumptions):
     os.makedirs(os.path.join(VERIF, "evidence"), exist_ok=True)
     with open(os.path.join(VERIF, "evidence", ctx.prop + ".json"), "w") as f:
         json.dump(ev, f, indent=1, default=str)
-    shutil.rmtree(ctx.work, ignore_errors=True)
+    if not os.environ.get("VERIF_KEEP"):
+        shutil.rmtree(ctx.work, ignore_errors=True)
     try:
         os.rmdir(os.path.join(VERIF, ".work"))
     except OSError:
